@@ -10,6 +10,8 @@ package vbox
 import (
 	"context"
 	"fmt"
+	"sort"
+	"strings"
 	"sync"
 	"time"
 
@@ -122,6 +124,17 @@ type addressed struct {
 type TierCache struct {
 	key         string
 	perReceiver map[string][]addressed
+	receivers   []string
+}
+
+func cacheReceivers(c *TierCache, fresh []string) []string {
+	if c == nil {
+		return fresh
+	}
+	if fresh != nil {
+		c.receivers = fresh
+	}
+	return c.receivers
 }
 
 // TierResult is what a query through the intermediate tier produced.
@@ -136,6 +149,49 @@ type TierResult struct {
 	// which is what its timeout does in production); InterDelivered = responses handed to it before it was done.
 	InterStuck     bool
 	InterDelivered int
+	// LeafAnswers: what every leaf answered to every receiver (decoded payloads), for the oracle "the split of a
+	// leaf's groups over the receivers neither loses nor duplicates a group".
+	LeafAnswers []LeafAnswer
+	Receivers   []string // receivers in the order of the leaf plan (hash index -> node)
+}
+
+// LeafAnswer is one leaf's answer to one receiver.
+type LeafAnswer struct {
+	Leaf     string
+	Receiver string
+	Err      string
+	Groups   []string // one entry per time series of the payload: tags + digest of its fields
+}
+
+func decodeAnswers(perReceiver map[string][]addressed) []LeafAnswer {
+	var out []LeafAnswer
+	var rcs []string
+	for rc := range perReceiver {
+		rcs = append(rcs, rc)
+	}
+	sort.Strings(rcs)
+	for _, rc := range rcs {
+		for _, a := range perReceiver[rc] {
+			la := LeafAnswer{Leaf: a.from, Receiver: rc, Err: a.resp.ErrMsg}
+			if len(a.resp.Payload) > 0 {
+				var tsl protoCommonV1.TimeSeriesList
+				if err := tsl.Unmarshal(a.resp.Payload); err != nil {
+					la.Err = "payload does not decode: " + err.Error()
+				}
+				for _, ts := range tsl.TimeSeriesList {
+					var fs []string
+					for name, data := range ts.Fields {
+						fs = append(fs, fmt.Sprintf("%s=%x", name, data))
+					}
+					sort.Strings(fs)
+					la.Groups = append(la.Groups, fmt.Sprintf("%q{%s}", ts.Tags, strings.Join(fs, ",")))
+				}
+				sort.Strings(la.Groups)
+			}
+			out = append(out, la)
+		}
+	}
+	return out
 }
 
 var tierSeq int64
@@ -331,6 +387,8 @@ func (c *Cluster) QueryViaIntermediates(q string, tr timeutil.TimeRange, leaves 
 			}
 		}
 		_ = receivers
+		res.LeafAnswers = decodeAnswers(perReceiver)
+		res.Receivers = cacheReceivers(cache, receivers)
 		// responses addressed to nodes without a task for this request are dropped (taskManager.Receive: "request may be evicted")
 		for rc, lst := range perReceiver {
 			if rc == res.Compute {
